@@ -56,7 +56,16 @@ def format(sql, encoding=None, **options):
     options = formatter.validate_options(options)
     stack = formatter.build_filter_stack(stack, options)
     stack.postprocess.append(filters.SerializerUnicode())
-    return ''.join(stack.run(sql, encoding))
+    result = []
+    for stmt in stack.run(sql, encoding):
+        # A statement that was ended by GO instead of a semicolon must not
+        # run into the next one once its trailing whitespace is stripped.
+        if (result and result[-1] and stmt
+                and not result[-1][-1].isspace() and result[-1][-1] != ';'
+                and not stmt[0].isspace()):
+            result.append(' ')
+        result.append(stmt)
+    return ''.join(result)
 
 
 def split(sql, encoding=None, strip_semicolon=False):
